@@ -399,9 +399,19 @@ void command_handler::get(const std::vector<std::string> & args)
         throw cmdline_exception("usage: get remote-file [ local-file ]");
     }
 
-    if (std::filesystem::exists(local_file))
+    /* Use the non-throwing overloads: a name the file system cannot handle
+     * (e.g. too long) must not terminate the program.
+     */
+    std::error_code ec;
+
+    if (std::filesystem::exists(local_file, ec))
     {
         throw cmdline_exception("File '%1%' already exists.", local_file);
+    }
+
+    if (ec)
+    {
+        throw cmdline_exception("Cannot create file '%1%'.", local_file);
     }
 
     std::ofstream ofs(local_file, std::ios_base::binary);
@@ -417,7 +427,7 @@ void command_handler::get(const std::vector<std::string> & args)
     /* Delete the created file in case of errors. */
     if (!replies.is_positive())
     {
-        std::filesystem::remove(local_file);
+        std::filesystem::remove(local_file, ec);
     }
 }
 
